@@ -181,6 +181,11 @@ func checkC10(c c10Case) *evid.Fail {
 	// the same template set on an object whose previous templates were rejected (syntax and lexical failures)
 	used := mustache.NewMustacheTemplate()
 	if g := guard(func() {
+		defaults := map[string]string{}
+		for _, n := range c10Names {
+			defaults[strings.ToUpper(n)] = "DEFAULT-" + n
+		}
+		used.SetDefaultVariables(defaults)
 		used.SetTemplate("x{{/a}}")
 		used.SetTemplate("{{#a}}x{{/b}}y")
 		used.SetTemplate("{{a}")
